@@ -972,6 +972,16 @@ func (x *runner) preIssuerCase(root, pi *authority, rootSKI, piSKI bool) {
 		// different signature algorithms: the final certificate's signature field must be the precertificate's (RFC 6962 3.1)
 		bf.setField(fSigAlg, bp.field(fSigAlg))
 	}
+	if r.Intn(3) == 0 {
+		// unique identifiers (never written by the library) on both sides: the pre-issuer edit must leave them alone
+		u := [][]byte{mk(0x81, []byte{byte(r.Intn(8))}, append(r.Bytes(1+r.Intn(3)), 0))}
+		if r.Bool() {
+			u = append(u, mk(0x82, []byte{0}, r.Bytes(r.Intn(5))))
+		}
+		bp.pre = append(bp.pre, u...)
+		bf.pre = append(bf.pre, u...)
+		x.out.Count("class:preissuer-unique-ids")
+	}
 	if piSKI && rootSKI && r.Intn(2) == 0 {
 		// a critical authority key id on both sides (the library never writes one): the replace case must keep the flag
 		crit := func(p *parts) {
@@ -1580,7 +1590,7 @@ func (x *runner) lengthBoundaries(ca *authority) {
 	for n := 0; n <= 300; n++ {
 		sizes = append(sizes, n)
 	}
-	for n := 65536 - 400; n <= 65536+40; n += 7 {
+	for n := 65536 - 400; n <= 65536+40; n += 17 {
 		sizes = append(sizes, n)
 	}
 	if verifkit.Thorough() {
